@@ -251,6 +251,17 @@ func (s *Sys) Ops() []Op {
 		}
 	}
 	if s.foreign {
+		// a prefix of the other address family whose low bits spell a block of this pool
+		for i := int64(0); i < g.n && i < 3; i++ {
+			b := g.ipBytes(g.blockBase(i))
+			if g.width == 32 {
+				v6 := append(net.ParseIP("2001:db8::")[:12:12], b...)
+				ops = append(ops, s.mkOp("free", v6, net.CIDRMask(128, 128), fmt.Sprintf("free an IPv6 /128 whose low 32 bits are block %d", i)))
+				ops = append(ops, s.mkOp("free", append(make(net.IP, 12, 16), b...), net.CIDRMask(128, 128), fmt.Sprintf("free ::a.b.c.d (IPv4-compatible IPv6) of block %d", i)))
+			} else {
+				ops = append(ops, s.mkOp("free", net.IP(b[12:16]), net.CIDRMask(32, 32), fmt.Sprintf("free the IPv4 address spelled by the low 32 bits of block %d", i)))
+			}
+		}
 		for _, k := range []int64{1, 2, g.n, g.n + 1, 1 << 16} {
 			d := new(big.Int).Mul(big.NewInt(k), g.size)
 			below := new(big.Int).Sub(g.base, d)
@@ -556,7 +567,7 @@ func describe(r *ev.Run) {
 
 func run(r *ev.Run, id string) {
 	foreign := id == "C06"
-	rich := id == "C05" || id == "C07" || id == "C06"
+	rich := true // every property explores the full hint-shape alphabet
 	for _, p := range graphPools(!r.Quick()) {
 		p := p
 		res := explore.Explore(r, explore.Config[Op]{
@@ -576,8 +587,76 @@ func run(r *ev.Run, id string) {
 	}
 }
 
+// bigFill: pools far beyond the graph bound (2^16+ blocks): fill to exhaustion without a
+// hint, every block distinct and inside the pool, exactly N successes, then ErrNoAddrAvail;
+// free blocks on both sides of the 2^16 mark and get exactly them back.
+func bigFill(r *ev.Run, id string, p Pool) {
+	g := newGeom(p)
+	a := newAlloc(p)
+	fam := "ipv6"
+	if p.V4 {
+		fam = "ipv4"
+	}
+	viol := func(prop, sig, what string) {
+		if prop == id {
+			r.Violate(prop+"/"+fam+"/"+sig, fmt.Sprintf("pool %v (%d blocks): %s", p, g.n, what), map[string]interface{}{"pool": p, "scenario": "fill without hint to exhaustion"})
+		}
+	}
+	seen := make(map[int64]bool, g.n)
+	blockOfNet := func(n net.IPNet) int64 {
+		if p.V4 {
+			if v4 := n.IP.To4(); v4 != nil {
+				return g.blockOf(new(big.Int).SetBytes(v4))
+			}
+			return -1
+		}
+		return g.blockOf(new(big.Int).SetBytes(n.IP.To16()))
+	}
+	end := reg.OpBegin(fmt.Sprintf("pool %v: filling %d blocks", p, g.n))
+	defer end()
+	for i := int64(0); i < g.n; i++ {
+		n, err := a.Allocate(net.IPNet{})
+		if err != nil {
+			viol("C05", "alloc-fails-with-free-blocks", fmt.Sprintf("allocation %d of %d failed (%v) with %d blocks outstanding", i+1, g.n, err, i))
+			return
+		}
+		blk := blockOfNet(n)
+		if blk < 0 {
+			viol("C05", "outside-pool", fmt.Sprintf("allocation %d returned %v which is not a block of the pool", i+1, n))
+			return
+		}
+		if seen[blk] {
+			viol("C04", "double-allocation", fmt.Sprintf("allocation %d returned block %d which is still outstanding", i+1, blk))
+			viol("C05", "alloc-succeeds-on-full-pool", fmt.Sprintf("allocation %d returned block %d a second time", i+1, blk))
+			return
+		}
+		seen[blk] = true
+	}
+	if _, err := a.Allocate(net.IPNet{}); !errors.Is(err, allocators.ErrNoAddrAvail) {
+		viol("C05", "exhaustion-wrong-error", fmt.Sprintf("allocation %d on the full pool returned %v", g.n+1, err))
+	}
+	for _, j := range []int64{0, 65535, 65536, g.n - 1} {
+		if j >= g.n {
+			continue
+		}
+		blk := net.IPNet{IP: g.ipBytes(g.blockBase(j)), Mask: net.CIDRMask(g.page, g.width)}
+		if err := a.Free(blk); err != nil {
+			viol("C06", "free-of-held-fails", fmt.Sprintf("Free of outstanding block %d failed: %v", j, err))
+			continue
+		}
+		n, err := a.Allocate(net.IPNet{})
+		if err != nil || blockOfNet(n) != j {
+			viol("C05", "alloc-fails-with-free-blocks", fmt.Sprintf("after freeing block %d the next allocation returned %v, %v", j, n, err))
+		}
+	}
+	r.EvalN("big-fill/"+fam, g.n)
+	r.Add("big_pools", 1)
+}
+
 // sweeps: linear fills of many pool geometries (C05), hint family at word boundaries (C07).
 func sweeps(r *ev.Run, id string) {
+	bigFill(r, id, Pool{CIDR: "2001:db8::/47", Page: 64})                 // 2^17 blocks
+	bigFill(r, id, Pool{V4: true, Start: "10.0.0.0", End: "10.1.17.111"}) // 70 000 addresses
 	thorough := !r.Quick()
 	var pools []Pool
 	sizes := []int{1, 2, 3, 63, 64, 65}
